@@ -715,6 +715,16 @@ func (c *FnCtx) enterLoop(fr *Frame, h *ssa.BasicBlock, ord int, st *State) *Sta
 		srt := c.heapSort(hname)
 		objs := wl.heaps[hname]
 		precise := !wl.whole[hname]
+		if lc != nil {
+			for _, hv := range lc.Havoc {
+				if hv == "maps" && (strings.HasPrefix(hname, "Mdom:map[string]interface{}") || strings.HasPrefix(hname, "Msel:map[string]interface{}") || strings.HasPrefix(hname, "Mlen:map[string]interface{}")) {
+					precise = false
+				}
+				if hv == hname {
+					precise = false
+				}
+			}
+		}
 		// objects written: loop-invariant ids (havocked individually), ids allocated inside the loop
 		// (objects below the watermark at loop entry keep their content), anything else: whole heap.
 		var inv []*Term
@@ -848,6 +858,9 @@ func (c *FnCtx) loopInvs(fr *Frame, h *ssa.BasicBlock, ord int, lc *LoopContract
 		return
 	}
 	c.curFrame = fr
+	savedOld := c.oldState
+	c.oldState = fr.entryState
+	defer func() { c.oldState = savedOld }()
 	for i, inv := range lc.Invs {
 		gf := c.eng.ld.GhostFunc(inv.Fn)
 		if gf == nil {
